@@ -386,7 +386,18 @@ def check_expression_case(case, seed):
                     n = int(np.prod(c.ufl_shape, dtype=int))
                     cvals[c] = dd["c"][off:off + n]
                     off += n
-                cell = oracle.Cell(mesh, dd["x"])
+                xs = dd["x"]
+                if xs.size == 0:
+                    # the kernel takes no geometry (FFCx found the expression independent of it): the oracle still
+                    # evaluates on a random cell, so that a wrongly dropped dependence shows
+                    import basix
+                    g = np.asarray(mesh.ufl_coordinate_element().basix_element.points if hasattr(mesh.ufl_coordinate_element(), "basix_element")
+                                   else mesh.ufl_coordinate_element()._sub_element.basix_element.points)
+                    g = g + np.round(rng.uniform(-0.125, 0.125, size=g.shape) * 64) / 64
+                    xs = np.zeros((g.shape[0], 3))
+                    xs[:, :g.shape[1]] = g
+                    xs = xs.reshape(-1)
+                cell = oracle.Cell(mesh, xs)
                 if ent is not None:
                     dd["e"][0] = ent
                 dd["p"][:] = 0
